@@ -6,9 +6,12 @@
 package main
 
 import (
+	"flag"
 	"fmt"
 	"os"
 	"strconv"
+
+	_ "github.com/golang/glog"
 )
 
 type cmdFunc func(args []string) error
@@ -27,6 +30,15 @@ func seedFromEnv() int64 {
 }
 
 func main() {
+	// The libraries log through glog: keep it off stderr and out of /tmp.
+	if dir := os.Getenv("VERIF_GLOG_DIR"); dir != "" {
+		os.MkdirAll(dir, 0o755)
+		flag.Set("log_dir", dir)
+	} else {
+		flag.Set("log_dir", os.DevNull+"-dir")
+	}
+	flag.Set("stderrthreshold", "FATAL")
+	flag.Set("logtostderr", "false")
 	if len(os.Args) < 2 {
 		fmt.Fprintln(os.Stderr, "usage: verifdrv <family> [flags]")
 		os.Exit(2)
